@@ -182,6 +182,9 @@ pub fn run_c06<C: NatCtx>(v: &mut Env<C>) {
             let certain = (what == "response" && bv != big(1)) || what == "challenge";
             v.h.check(!(acc && (strict || certain)), || format!("Schnorr proof with changed {} accepted on {}", what, tok));
         }
+        // commitment and response shifted consistently: accepted exactly when the commitment is not hashed
+        let acc = sch_verify(v, &base, &y, &((&t * &bv) % &p), &c, &((&s + 1u32) % &q), &label);
+        v.h.check(!(acc && strict), || format!("Schnorr proof with commitment*base and response+1 accepted on {}", tok));
         // Chaum-Pedersen: only one of the two equations holds, hash-consistent
         let g2 = v.rnd_member();
         let (y1, y2) = (bv.modpow(&x, &p), g2.modpow(&x, &p));
@@ -203,6 +206,21 @@ pub fn run_c06<C: NatCtx>(v: &mut Env<C>) {
         v.h.check(acc, || format!("honest CP transcript rejected on {}", tok));
         let acc = cp_verify(v, &base, &g2, &y1, &y2, &t1, &t2, &(&c + &q), &s, &label);
         v.h.check(!acc, || format!("CP proof with challenge + q accepted on {}", tok));
+        // both commitments and the response shifted consistently / only one commitment with a
+        // compensating statement: accepted exactly when a commitment is not hashed
+        let acc = cp_verify(v, &base, &g2, &y1, &y2, &((&t1 * &bv) % &p), &((&t2 * &g2) % &p), &c, &((&s + 1u32) % &q), &label);
+        v.h.check(!(acc && strict), || format!("CP proof with both commitments and the response shifted accepted on {}", tok));
+        {
+            // post-hoc first commitment for a FALSE y1': take the challenge for a dummy commitment1, answer
+            // honestly for the second equation, then SOLVE equation 1 for commitment1. Accepted exactly
+            // when commitment1 does not enter the challenge hash.
+            let y1f = (&y1 * &g) % &p;
+            let cf = C::x_val(&zv::cp_challenge(&zkp, &v.e(&bv), &v.e(&g2), &v.e(&y1f), &v.e(&y2), &v.e(&t1), &v.e(&t2), None, &label).unwrap());
+            let sf = (&r + &cf * &x) % &q;
+            let t1f = (bv.modpow(&sf, &p) * y1f.modpow(&((&q - (&cf % &q)) % &q), &p)) % &p;
+            let acc = cp_verify(v, &base, &g2, &y1f, &y2, &t1f, &t2, &cf, &sf, &label);
+            v.h.check(!(acc && strict && t1f != t1), || format!("CP forgery with a post-hoc first commitment accepted on {}", tok));
+        }
         // cancelling errors: equation 1 off by a factor u, equation 2 off by 1/u, hash-consistent
         {
             let u = v.rnd_member();
